@@ -421,6 +421,8 @@ static void applyOpt(TypedArgBase* arg, SlotBase* slot, const string& opt, Handl
       else if (v == "lower") arg->addFormat(lowercase());
       else if (v.rfind("anycase:", 0) == 0) arg->addFormat(anycase(unhexf(v.substr(8))));
    }
+   else if (k == "fmtkey") { if (v == "upper") arg->addFormatKey(uppercase()); else arg->addFormatKey(lowercase()); }
+   else if (k == "fmtval") { if (v == "upper") arg->addFormatValue(uppercase()); else arg->addFormatValue(lowercase()); }
    else if (k == "fmtpos")
    {
       auto p = split(v, ':');
@@ -604,11 +606,11 @@ static void runScenario(const Scenario& sc, uint64_t idx)
             haveProgName = t.size() > 2;
             useString = haveArgv = true;
          }
-         else if (c == "Q")
+         else if (c == "Q" || c == "Q1")
          {
             // C07 part 1: string -> argv
             prog.set(idx, descr + " phase=make_arg_array");
-            auto as2a = celma::appl::make_arg_array(unhexf(t[1]), "prog");
+            auto as2a = c == "Q1" ? celma::appl::make_arg_array("prog " + unhexf(t[1])) : celma::appl::make_arg_array(unhexf(t[1]), "prog");
             string r = "W " + sc.id + " " + std::to_string(as2a.mArgC);
             for (int i = 0; i < as2a.mArgC; ++i) r += string(" ") + hexs(as2a.mpArgV[i]);
             r += as2a.mpArgV[as2a.mArgC] == nullptr ? " null" : " NOTNULL";
